@@ -60,6 +60,9 @@ def op_transfer(w: World, op: dict):
     try:
         try:
             if op.get("via") == "index":
+                if op.get("verify"):
+                    # the index-level fetch takes `verify` from the configuration of the store it reads from
+                    src_odb = w.odb(src, "src", verify=True)
                 res = _index_push(w, op, src_odb, dst_odb, on_status)
             else:
                 res = transfer(src_odb, dst_odb, set(_his(w, op["req"], named=bool(op.get("named")))), shallow=op["shallow"],
@@ -106,8 +109,15 @@ def _index_push(w: World, op: dict, src_odb, dst_odb, on_status):
                 idx[(x,)].loaded = True
         elif x not in listed:
             idx[(x,)] = DataIndexEntry(key=(x,), meta=Meta(), hash_info=w.uni.hash_info(x, "md5"))
-    idx.storage_map.add_cache(ObjectStorage((), src_odb))
-    idx.storage_map.add_data(ObjectStorage((), dst_odb))
+    fetching = op["src"] != "cache"      # the cache is the index's cache storage, the other store its data storage
+    if fetching:
+        import dvc_data.index.fetch as ipush  # noqa: F811 - same shape: fetch([idx]) calls the module's `transfer`
+
+        idx.storage_map.add_cache(ObjectStorage((), dst_odb))
+        idx.storage_map.add_data(ObjectStorage((), src_odb))
+    else:
+        idx.storage_map.add_cache(ObjectStorage((), src_odb))
+        idx.storage_map.add_data(ObjectStorage((), dst_odb))
     got = {}
     real = ipush.transfer
 
@@ -125,7 +135,7 @@ def _index_push(w: World, op: dict, src_odb, dst_odb, on_status):
 
     ipush.transfer = spy
     try:
-        ipush.push([idx], jobs=op.get("jobs"))
+        (ipush.fetch if fetching else ipush.push)([idx], jobs=op.get("jobs"))
     finally:
         ipush.transfer = real
     return got["res"]
@@ -693,6 +703,11 @@ def check_C11(run: core.Run, replay=None):
         for c in _sample(gen["c11"], 1500 if quick else 10**9, rng):
             cases.append({"init": c["init"], "ops": [xfer_op(c)], "kind": "c11", "useed": len(cases) % 3})
         for c in _sample(gen["verify"], 500 if quick else 10**9, rng):
+            if c["shallow"] and len(cases) % 2:
+                # the same fetch asked through a data index (dvc_data.index.fetch), the remote opened with verify=...
+                cases.append({"init": c["init"], "ops": [xfer_op(c, verify=c["verify"], via="index", entries="explicit")],
+                              "kind": "verify-index", "useed": len(cases) % 3})
+                continue
             cases.append({"init": c["init"], "ops": [xfer_op(c, verify=c["verify"])], "kind": "verify",
                           "useed": len(cases) % 3})
         for c in gx["push"] + gx["fetch"]:
@@ -796,6 +811,10 @@ def check_C07(run: core.Run, replay=None):
                    {"op": "Check", "s": c["s"], "o": sorted(c["ids"])[0], "ro": ro}]
             cases.append({"init": c["init"], "ops": ops, "kind": "status+check"})
         for c in _sample(gv["verify"], 600 if quick else 10**9, rng):
+            if c["shallow"] and len(cases) % 2:
+                cases.append({"init": c["init"], "ops": [xfer_op(c, verify=c["verify"], via="index", entries=("explicit", "lazy")[len(cases) % 4 // 2])],
+                              "kind": "verify-index"})
+                continue
             cases.append({"init": c["init"], "ops": [xfer_op(c, verify=c["verify"])], "kind": "verify"})
         cases += tamper_matrix()
         cases += sim_cases("ObjectStore_sim.cfg", 300 if quick else 3000, 14, run.seed + 6)
